@@ -488,6 +488,12 @@ def run_check(pid, tier, seed, workers=None, quiet=False):
         "stored_regression_traces_replayed": stored_traces,
         "violation_classes": sorted(by_key),
     }
+    extra = getattr(mod, "extra_coverage", None)
+    if extra is not None:
+        try:
+            cov.update(isolated_call(extra, timeout=120))
+        except Exception as e:  # informational only
+            cov["extra_coverage_error"] = repr(e)
     ev = {
         "property_id": pid,
         "tier": tier,
